@@ -740,9 +740,19 @@ def _c12_rest(chk, F, rid):
                 "mutable" if mname == "is_mutable" else "constant") if not verdict else
                "type_t::%s(RECORD) requires every field" % mname, "%s:%s" % (m["file"], m["line"]))
     # binders forced const
-    for q, what in (("UTAP::ExpressionBuilder::expr_forall_begin", "quantifier binder"),
-                    ("UTAP::StatementBuilder::iteration_begin", "iteration variable"),
-                    ("UTAP::DocumentBuilder::addSelectSymbolToFrame", "select binder")):
+    # the callbacks that add a binder: the three fixed ones plus every expr_*_begin of ExpressionBuilder that adds a
+    # symbol itself (the quantifiers over dynamic templates; found missing here by a defect-hunt sub-agent, E12-1)
+    binder_cbs = [("UTAP::ExpressionBuilder::expr_forall_begin", "quantifier binder"),
+                  ("UTAP::StatementBuilder::iteration_begin", "iteration variable"),
+                  ("UTAP::DocumentBuilder::addSelectSymbolToFrame", "select binder")]
+    for f_ in sorted(F.functions.values(), key=lambda z: z.get("line") or 0):
+        if f_.get("cls") == "UTAP::ExpressionBuilder" and (f_.get("name") or "").startswith("expr_") and \
+                f_["name"].endswith("_begin") and f_.get("body") is not None and f_["q"] not in [x[0] for x in binder_cbs] \
+                and any(c.get("name") == "add_symbol" for c in calls(f_["body"])):
+            binder_cbs.append((f_["q"], "binder of a quantifier over a dynamic template"))
+    if len(binder_cbs) < 7:
+        raise AnalysisBroken("binder callbacks: only %d found" % len(binder_cbs))
+    for q, what in binder_cbs:
         b = F.fn(q)
 
         def is_const_test(c):
@@ -1324,3 +1334,154 @@ def run_callee(chk, F, collectors, rid="R-CALLEE"):
                    (fn["q"], sh, "the symbol of the process" if sh == "DOT" else "empty"),
                    "%s:%s" % (fn["file"], fn["line"]),
                    sample="%s: callee shape %s resolved separately" % (name, sh))
+
+
+# ---------------------------------------------------------------------------------------------- R-DUPNAME
+# frame_t::add_symbol lets a second symbol of the same name take over the name (mapping[name] is overwritten).  A
+# namesake added later therefore hides the earlier declaration in the same frame - `void f(const int k, int k) { k = 1; }`
+# wrote to "the" parameter k although the first k is constant (found by a defect-hunt sub-agent, E12-3).
+DUPNAME_LISTED = {
+    "UTAP::DocumentBuilder::addSelectSymbolToFrame": "a second select binder of the same name on one edge is only warned "
+                                                     "about ($shadows_a_variable); both binders are forced constant "
+                                                     "(binder-const), so no write gets through",
+    "UTAP::Document::add_process": "the process is added under the name of the instance it is made from: the second symbol "
+                                   "of that name is the point (a PROCESS symbol in front of the INSTANCE symbol)",
+}
+DUP_TESTS = ("contains", "get_index_of", "resolve", "find_index_of")
+
+
+def run_dupname(chk, F, rid="R-DUPNAME"):
+    chk.rule(rid, "every frame_t::add_symbol of a name that comes from the model is preceded by a test whether the frame "
+                  "already holds that name (in the function itself, or in every builder callback that calls it), or adds "
+                  "to a frame created in the same function")
+    from ..inline import strip as _strip
+    sites = []
+    for fn in sorted(F.functions.values(), key=lambda f: (f.get("file") or "", f.get("line") or 0)):
+        fl = fn.get("file") or ""
+        if fn.get("body") is None or not fl.startswith("/repo/src") and "/src/" not in fl:
+            continue
+        if "/test/" in fl or fl.startswith("/usr"):
+            continue
+        for c in calls(fn["body"]):
+            if c.get("name") == "add_symbol" and c.get("cls") == "UTAP::frame_t":
+                sites.append((fn, c))
+    if len(sites) < 15:
+        raise AnalysisBroken("R-DUPNAME: only %d add_symbol sites found" % len(sites))
+
+    def dup_locals(fn):
+        """locals holding the answer of a duplicate test: `bool duplicate = frame.contains(name);`"""
+        out = set()
+        for d in walk(fn["body"]):
+            if d.get("k") == "decl":
+                for v in d.get("vars", []):
+                    if v.get("init") is not None and any(c.get("name") in DUP_TESTS for c in calls(v["init"])):
+                        out.add(v.get("id"))
+        return out
+
+    def own_test(fn, via=None):
+        """a duplicate test whose positive outcome reports an error or throws; `via`: a callee that hands the answer of
+        its own test back as its result"""
+        dl = dup_locals(fn)
+        for n in walk(fn["body"]):
+            if n.get("k") != "if":
+                continue
+            direct = any(c.get("name") in DUP_TESTS for c in calls(n["c"])) or \
+                any(x.get("k") == "ref" and x.get("id") in dl for x in walk(n["c"])) or \
+                (via is not None and any(c.get("name") == via for c in calls(n["c"])))
+            if direct:
+                for br in (n["then"], n.get("else")):
+                    if br is not None and (G.has_error_report(br) or any(x.get("k") == "throw" for x in walk(br))):
+                        return True
+        return False
+
+    def returns_answer(fn):
+        dl = dup_locals(fn)
+        rets = [r for r in walk(fn["body"]) if r.get("k") == "return" and r.get("e") is not None]
+        return bool(rets) and "bool" in (fn.get("rt") or fn.get("t") or "bool") and \
+            all(any(x.get("k") == "ref" and x.get("id") in dl for x in walk(r["e"])) for r in rets)
+
+    def fresh_frame(fn, c):
+        return any(x.get("name") in ("push_frame", "pushFrame") and
+                   any(y.get("name") == "create" and (y.get("cls") or "").endswith("frame_t") for y in calls(x))
+                   and (x.get("l") or 0) <= (c.get("l") or 0) for x in calls(fn["body"]))
+    for fn, c in sites:
+        a0 = (c.get("args") or [{}])[0]
+        while isinstance(a0, dict) and a0.get("k") in ("construct", "cast") and (a0.get("args") or a0.get("e")):
+            a0 = a0["args"][0] if a0.get("args") else a0["e"]
+        key = "%s@%s" % (fn["q"].replace("UTAP::", ""), short(a0)[:24])
+        where = "%s:%s" % (fn["file"], c.get("l"))
+        if fn["q"] in DUPNAME_LISTED:
+            chk.ob(rid, key + "|listed", True, "", where, sample="%s - listed: %s" % (key, DUPNAME_LISTED[fn["q"]][:60]))
+            continue
+        if own_test(fn):
+            chk.ob(rid, key, True, "", where, sample="%s tests the frame for the name first" % key)
+            continue
+        if fresh_frame(fn, c):
+            chk.ob(rid, key, True, "", where, sample="%s adds to a frame created in the same function" % key)
+            continue
+        callers = [g for g in F.functions.values() if g.get("body") is not None and g is not fn and
+                   "/test/" not in (g.get("file") or "") and any(x.get("fn") == fn["q"] for x in calls(g["body"]))]
+        def callers_of(f_):
+            return [g for g in F.functions.values() if g.get("body") is not None and g is not f_ and
+                    "/test/" not in (g.get("file") or "") and any(
+                        x.get("fn") == f_["q"] or
+                        # a call through the declaration in a base class that f_ overrides
+                        (x.get("name") == f_["name"] and x.get("cls") and f_.get("cls") and x["cls"] != f_["cls"] and
+                         F.derives(f_["cls"], x["cls"])) for x in calls(g["body"]))]
+
+        def callers_ok(f_, answers, depth=0):
+            cs = callers_of(f_)
+            if not cs or depth > 2:
+                return False
+            for g in cs:
+                if own_test(g, f_["name"] if answers else None):
+                    continue
+                rets = [r for r in walk(g["body"]) if r.get("k") == "return" and r.get("e") is not None]
+                forwards = answers and rets and all(any(c2.get("name") == f_["name"] for c2 in calls(r["e"])) for r in rets)
+                if forwards and callers_ok(g, True, depth + 1):
+                    continue
+                return False
+            return True
+        ok = callers_ok(fn, returns_answer(fn)) and not (fn.get("cls") or "").endswith("Builder")
+        chk.ob(rid, key, ok,
+               "%s adds the symbol `%s` without asking whether the frame already holds the name%s: frame_t::add_symbol "
+               "gives the name to the newcomer, so an earlier declaration of the same name in the same frame (a constant "
+               "parameter, say) is silently hidden by the later one" %
+               (fn["q"], short((c.get("args") or [{}])[0])[:30],
+                "" if not callers else " (nor do its callers %s)" % ", ".join(sorted(g["name"] for g in callers if not own_test(g)))),
+               where, sample="%s: every caller (%s) tests first" % (key, ", ".join(sorted(g["name"] for g in callers))))
+
+
+# ---------------------------------------------------------------------------------------------- R-FIELDGATE
+def run_fieldgate(chk, F, rid="R-FIELDGATE"):
+    """type_t::is_mutable(RECORD) demands that every field is mutable, and isModifiableLValue asks the root object only:
+    a field type that is not mutable makes every field of every variable of the struct read-only.  The gate in
+    StatementBuilder::struct_field therefore has to refuse every field type for which is_mutable() is false - in
+    particular an array of constants, which type_t::is(CONSTANT) does not see (E12-4)."""
+    chk.rule(rid, "StatementBuilder::struct_field reports an error for every field type that is not mutable: its test is "
+                  "!is_mutable() of the field type, or a constness test applied after descending through the array "
+                  "dimensions")
+    fn = F.fn("UTAP::StatementBuilder::struct_field")
+    from ..inline import strip as _strip
+    gates = [n for n in walk(fn["body"]) if n.get("k") == "if" and G.has_error_report(n["then"])]
+    if not gates:
+        raise AnalysisBroken("struct_field: no reporting test found")
+    ok, seen = False, []
+    descends = any(c.get("name") in ("get_sub", "get_array_element", "strip_array_keep_prefix") for c in calls(fn["body"])) and \
+        any(n.get("k") in ("while", "for") for n in walk(fn["body"]))
+    for g in gates:
+        c = _strip(g["c"])
+        neg = False
+        while isinstance(c, dict) and c.get("k") == "un" and c.get("op") == "!":
+            c, neg = _strip(c["e"]), not neg
+        if not (isinstance(c, dict) and c.get("k") == "call"):
+            continue
+        seen.append(short(g["c"])[:40])
+        if c.get("name") == "is_mutable" and neg:
+            ok = True
+        elif not neg and (c.get("name") == "is_constant" or (c.get("name") == "is" and "CONSTANT" in short(c))):
+            ok = ok or (descends and "strip" not in short(c.get("recv")))
+    chk.ob(rid, "struct_field", ok,
+           "StatementBuilder::struct_field does not refuse every field type that is not mutable (tests: %s): "
+           "`struct { const int a[2]; int b; } s;` is accepted and every field of s is then read-only, because a record "
+           "is mutable only if all its fields are" % ", ".join(seen), "%s:%s" % (fn["file"], fn["line"]))
